@@ -29,15 +29,20 @@ Succs(P, mi, p) ==
     [] ins.op = OP_BRANCH -> {Target(P, mi, ins.a), p + 1}
     [] OTHER -> {p + 1}
 
-\* reference dataflow: first depth that reaches each pc along a worklist traversal (0 = unreached is encoded as -1)
-RECURSIVE Flow(_,_,_,_)
-Flow(P, mi, work, map) ==
-  IF work = {} THEN map ELSE
+\* reference dataflow: first depth that reaches each pc along a worklist traversal (unreached is encoded as -1).
+\* Successors and net effects are tabulated once per method (explicit tuples), and the worklist is processed in runs of
+\* 128 items: one recursion as deep as the method is long, or a function given by a rule under EXCEPT, costs TLC quadratic time.
+Tup(f) == Tail(<<0>> \o f)
+RECURSIVE FlowRun(_,_,_,_,_)
+FlowRun(succ, net, work, map, k) ==
+  IF work = {} \/ k = 0 THEN <<work, map>> ELSE
   LET w == CHOOSE x \in work : TRUE
       p == w[1]  dd == w[2] IN
-  IF p < 1 \/ p > Len(Code(P, mi)) \/ map[p] # -1 THEN Flow(P, mi, work \ {w}, map)
-  ELSE LET eff == Effect(P, Code(P, mi)[p])
-           nd == dd + eff[2] IN
-       Flow(P, mi, (work \ {w}) \cup {<<q, nd>> : q \in Succs(P, mi, p)}, [map EXCEPT ![p] = dd])
-DepthMap(P, mi) == Flow(P, mi, {<<1, 0>>}, [p \in 1..Len(Code(P, mi)) |-> -1])
+  IF p < 1 \/ p > Len(map) \/ map[p] # -1 THEN FlowRun(succ, net, work \ {w}, map, k - 1)
+  ELSE FlowRun(succ, net, (work \ {w}) \cup {<<q, dd + net[p]>> : q \in succ[p]}, [map EXCEPT ![p] = dd], k - 1)
+RECURSIVE Flow(_,_,_,_)
+Flow(succ, net, work, map) == LET r == FlowRun(succ, net, work, map, 128) IN IF r[1] = {} THEN r[2] ELSE Flow(succ, net, r[1], r[2])
+DepthMap(P, mi) ==
+  LET n == Len(Code(P, mi)) IN
+  Flow(Tup([p \in 1..n |-> Succs(P, mi, p)]), Tup([p \in 1..n |-> Effect(P, Code(P, mi)[p])[2]]), {<<1, 0>>}, Tup([p \in 1..n |-> -1]))
 =============================================================================
